@@ -50,10 +50,13 @@ def run(m, chk):
     # evaluator result
     q = FE + "eval"
     c3 = r.root(q)
-    need = [("nodes", ("P", 1))] + [(f, ("PF", 0, "_FunctionEvaluator__" + f)) for f in ("knotvector", "weights", "first_index", "matrix", "knots", "spans")]
+    # `knots`, `spans`, `matrix` are caches derived from the knot vector: any of them stands for it
+    FE_ = "_FunctionEvaluator__"
+    need = [("nodes", [("P", 1)]), ("the knot vector", [("PF", 0, FE_ + f) for f in ("knotvector", "knots", "spans", "matrix")]), ("weights", [("PF", 0, FE_ + "weights")]),
+            ("the first index", [("PF", 0, FE_ + "first_index")]), ("the second index (coefficient table)", [("PF", 0, FE_ + "matrix"), ("PF", 0, FE_ + "second_index")])]
     for nid, v in sorted(c3.ret_sites.items()):
         have = r.deep_dep(c3, v, heap=c3.ret_states[nid].heap)
-        miss = [n for n, w in need if not R.dep_has(have, w)]
+        miss = [n for n, ws in need if not any(R.dep_has(have, w) for w in ws)]
         chk.ob("DEP-MAY", f"{q}: the value depends on nodes, knot vector, weights, both indices (table)", not miss, loc=r.loc(c3, c3.cfg.nodes[nid].ast), detail="" if not miss else f"{q}: the basis value does not depend on {', '.join(miss)}", func=q, construct=f"ignores {', '.join(miss)}")
     c4 = r.root(FE + "__init__")
     hv = c4.summary.heap.get((("P", 0), "_FunctionEvaluator__matrix"))
